@@ -3,8 +3,10 @@ from . import plans
 
 # (engine, share of the wall budget, nominal run count) per tier
 TIERS = {
-    "quick": dict(budget_s=110, phases=[("twin", 0.6), ("compiled", 0.4)], count=400000),
-    "thorough": dict(budget_s=1500, phases=[("twin", 0.6), ("compiled", 0.4)], count=4000000),
+    "quick": dict(budget_s=100, phases=[("compiled", 0.65), ("twin", 0.35)], count=2000000,
+                  run_cap=30),
+    "thorough": dict(budget_s=1500, phases=[("compiled", 0.65), ("twin", 0.35)], count=40000000,
+                     run_cap=60),
 }
 
 SOLVER_LEVEL = {"C01", "C02", "C03", "C04", "C05", "C16", "C17"}
